@@ -185,6 +185,8 @@ def shard(plan_ref, seed, examples):
         code = e1.enc_arm(w) if not thumb else e1.enc_thumb(w, tn == 't32') + b'\x00\xbf\x00\xbf'
         for _ in range(VECS):
             kw = plan.case_kw(rng, row)
+            if thumb and 'pc_off' not in kw:
+                kw['pc_off'] = rng.choice((0, 2))        # Thumb instructions at both 0 and 2 mod 4 (Align(PC,4) matters)
             hooked = plan.hooked[rng.randrange(len(plan.hooked))]
             case = gen.step_case(rng, cfgname, thumb, code, steps=plan.steps, hooked=hooked, **kw)
             if plan.tweak_case:
